@@ -1,9 +1,10 @@
-(* Extraction of the executable C10 model (Model/Placement.v) for the correspondence check.
+(* Extraction of the executable C10 model (Model/Placement.v, Model/BulkPlacement.v) for the correspondence check.
    Directives: exactly those of ExtrOcamlBasic; nat, positive, Z stay the extracted inductive types
    (N.of_nat is listed only because ocaml/conv.ml.in mentions the type N). *)
 Require Extraction.
 Require ExtrOcamlBasic.
 From Coq Require Import NArith.
-From Pika Require Import Base.Conc Model.Placement.
+From Pika Require Import Base.Conc Model.Placement Model.BulkPlacement.
 Extraction Language OCaml.
-Extraction "m.ml" step pl_tstep g_init l_init find_handle where_is get_task hint_num base_queue N.of_nat.
+Extraction "m.ml" step pl_tstep g_init l_init find_handle where_is get_task hint_num base_queue N.of_nat
+  bulk_allowed bulk_worker part_nonempty bk_tstep bk_init.
